@@ -102,6 +102,18 @@ def parent (n : Name) : Name :=
   | [] => n
   | _ :: rest => { labels := rest, fqdn := true }
 
+/-- `soa.is_some_and(|soa| &base != soa)` negated: no SOA name, or the owner's base name is it -/
+def underSoa (soa : Option Name) (owner : Name) : Bool :=
+  match soa with
+  | some s => Name.eq (parent owner) s
+  | none => true
+
+/-- `Some(&n) == soa` -/
+def eqSoa (soa : Option Name) (n : Name) : Bool :=
+  match soa with
+  | some s => Name.eq n s
+  | none => false
+
 /-- the loop at the top of `verify_nsec3`: `split_first_label`, base == SOA, `Label::from_raw_bytes`.
 `none` is any of the three `return Bogus`. -/
 def mkPairs (soa : Option Name) : List Rec → Option (List Pair)
@@ -110,9 +122,7 @@ def mkPairs (soa : Option Name) : List Rec → Option (List Pair)
     match r.owner.labels with
     | [] => none
     | l :: _ =>
-      if (match soa with
-          | some s => !(Name.eq (parent r.owner) s)
-          | none => false) then none
+      if !underSoa soa r.owner then none
       else if !(Name.labelFromRaw l).isOk then none
       else (mkPairs soa rs).map fun ps => { label := l, data := r } :: ps
 
@@ -244,9 +254,7 @@ def validateNxdomain (q : Name) (soa : Option Name) (pairs : List Pair) : Proof 
           else if fx.optout && ncr.data.optOut then .insecure
           else .secure
         | none, some _, some _ =>
-          if (match soa with
-              | some s => Name.eq (parent q) s
-              | none => false) then .secure else .bogus
+          if eqSoa soa (parent q) then .secure else .bogus
         | _, _, _ => .bogus
 
 /-- the labels of `next_closer_name` in case 4: the last `wl + 1` labels of the query name -/
@@ -297,13 +305,9 @@ def validateNodata (q : Name) (qtype : Nat) (soa : Option Name) (wl : Option Nat
               else .secure
             else .bogus
           | none, some _, some _ =>
-            if (match soa with
-                | some s => Name.eq (parent q) s
-                | none => false) then .secure else .bogus
+            if eqSoa soa (parent q) then .secure else .bogus
           | none, none, none =>
-            if !fx.apex && (match soa with
-                | some s => Name.eq q s
-                | none => false) then .secure else .bogus
+            if !fx.apex && eqSoa soa q then .secure else .bogus
           | _, _, _ => .bogus
 
 /-- `verify_nsec3`.  `wl` is `answers.iter().find_map(RRSIG → num_labels)`; `rcode` the numeric
